@@ -157,7 +157,7 @@ REGISTRY: dict[str, dict] = {
     "C07": dict(
         modules=["C07", "C06", "C07Grouped", "TranslatedFlows"],
         theorems=[T + "Translated.graphs_frame_from_graph", T + "Translated.datasets_frame_from_dataset", T + "Translated.graphs_to_stream_frame",
-                  T + "Translated.datasets_to_stream_frame", T + "C07_grouped_triples_valid", T + "C07_grouped_quads_valid", T + "C07_frames_eq_rows", T + "C07_repartition", T + "C07_grouped_one_per_frame",
+                  T + "Translated.datasets_to_stream_frame", T + "C07_known_metadata_only_first_frame", T + "C07_grouped_triples_valid", T + "C07_grouped_quads_valid", T + "C07_frames_eq_rows", T + "C07_repartition", T + "C07_grouped_one_per_frame",
                   T + "C07_grouped_concat_eq_flat", T + "C07_one_frame_per_nonempty_sink", T + "C06_rows_independent_of_flow"],
         rule="PARSE on reference-encoder row sequences re-cut into frames at EVERY single position and at random multi-cuts "
              "with empty frames and metadata: flat(recut) == flat(one frame); grouped: one sink per frame, concatenation == "
